@@ -167,8 +167,11 @@ def cv_dataset(p, arrs):
         data["confidence_measure"] = (["row", "col", "indicator"], arrs["conf"].copy())
         coords["indicator"] = ["confidence_from_ambiguity", "confidence_from_risk_max"][: arrs["conf"].shape[2]]
     ds = xr.Dataset(data, coords=coords)
-    ds.attrs = {"measure": "zncc" if p["mx"] else "sad", "subpixel": int(round(1 / p["dstep"])), "offset_row_col": 0,
-                "window_size": 1, "type_measure": "max" if p["mx"] else "min", "cmax": 12, "band_correl": None,
+    # the window of the matching cost that produced the volume is the caller's (attrs offset_row_col / window_size):
+    # to_disp carries the flags over whatever it is
+    off = p.get("offset", p["seed"] % 3 if min(nr, nc) > 4 else 0)
+    ds.attrs = {"measure": "zncc" if p["mx"] else "sad", "subpixel": int(round(1 / p["dstep"])), "offset_row_col": off,
+                "window_size": 2 * off + 1, "type_measure": "max" if p["mx"] else "min", "cmax": 12, "band_correl": None,
                 "crs": None, "transform": Affine(1.0, 0.0, 0.0, 0.0, 1.0, 0.0),
                 "disparity_source": [int(math.floor(arrs["disps"][0])), int(math.ceil(arrs["disps"][-1]))]}
     return ds
